@@ -47,6 +47,7 @@ class FnAnn:
         self.closures = []   # (text, [lines])
         self.proofs = []     # (regex, [lines])
         self.props = None
+        self.declare_only = False   # T8b: a trait's default method body is dropped (declaration kept)
 
 
 class Extract:
@@ -170,6 +171,8 @@ def parse_unit(path, _depth=0, contract_only=False):
                 ext.contract_only = False
             elif key == 'fn':
                 ann = ext.fns.setdefault(rest, FnAnn(rest))
+            elif key == 'declare-only':
+                ann.declare_only = True
             elif key == 'result':
                 ann.result = rest
             elif key == 'spec':
@@ -473,7 +476,19 @@ def build_item(repo, ext, unit_path):
             spec_txt = '\n' + '\n'.join(ind + '    ' + l.strip() for _, l in ann.spec) + '\n' + ind
             edits.append((p2, p2, spec_txt.rstrip(' \t')))
             inserted.append(('T4', ann.name, [l.strip() for _, l in ann.spec]))
-        if parts['has_body'] and ext.contract_only:
+        if parts['has_body'] and ann.declare_only:
+            if not ext.anchor.startswith('trait'):
+                raise UnitError('declare-only is for default methods of a trait')
+            bs = parts['end_sig']
+            be = match_close(text, code, bs)
+            p2 = bs
+            while p2 > 0 and text[p2 - 1] in ' \t\n':
+                p2 -= 1
+            edits.append((p2, be + 1, ';'))
+            inserted.append(('T8b', ann.name))
+            t8_fns.add(ann.name)
+            t8_spans.append((origin[p2 - 1] + 1 if origin[p2 - 1] is not None else origin[bs], origin[be] + 1))
+        elif parts['has_body'] and ext.contract_only:
             bs = parts['end_sig']
             be = match_close(text, code, bs)
             edits.append((ks, ks, '#[verifier::external_body] /* CONTRACT-ONLY (T8): body verified in its own unit */ '))
